@@ -60,6 +60,7 @@ type Spec struct {
 	Outside     []string    `json:"outside"`
 	StubsDoc    []string    `json:"stubs_doc"`
 	Assumptions []string    `json:"assumptions"`
+	Solver      []string    `json:"solver"` // optional solver command line (default: z3 -in), e.g. ["z3-new","-in"]
 }
 
 type KnownFinding struct {
@@ -250,7 +251,7 @@ func check(args []string) int {
 			defer wg.Done()
 			sem <- struct{}{}
 			defer func() { <-sem }()
-			ecfg := sx.Config{Trace: *trace, SchedExplore: -1, MaxSteps: tc.MaxSteps, TimeoutMs: tc.SolverMs, NoIfConv: es.NoIfConv, MaxBackEdge: tc.MaxBackEdge}
+			ecfg := sx.Config{Trace: *trace, SchedExplore: -1, MaxSteps: tc.MaxSteps, TimeoutMs: tc.SolverMs, NoIfConv: es.NoIfConv, MaxBackEdge: tc.MaxBackEdge, SolverArgv: spec.Solver}
 			if strings.HasPrefix(es.Sched, "explore:") {
 				k, _ := strconv.Atoi(strings.TrimPrefix(es.Sched, "explore:"))
 				ecfg.SchedExplore = k
@@ -788,7 +789,7 @@ func writeEvidence(verif, id, tier string, seed int, spec *Spec, results []*entr
 			"functions_encoded_total":       otherN,
 			"queries":                       queries,
 			"solver_s":                      solverS,
-			"solver":                        "z3 -in (4.8.12), no set-logic, timeout per query as configured",
+			"solver":                        solverDesc(spec.Solver),
 			"assert_sites":                  asserts,
 			"reach":                         reach,
 			"bounds":                        spec.Bounds,
@@ -807,4 +808,11 @@ func writeEvidence(verif, id, tier string, seed int, spec *Spec, results []*entr
 	os.MkdirAll(filepath.Join(verif, "evidence"), 0o755)
 	b, _ := json.MarshalIndent(ev, "", " ")
 	os.WriteFile(filepath.Join(verif, "evidence", id+evidenceSuffix+".json"), b, 0o644)
+}
+
+func solverDesc(argv []string) string {
+	if len(argv) == 0 {
+		return "z3 -in (4.8.12), no set-logic, timeout per query as configured"
+	}
+	return strings.Join(argv, " ") + " (spec.json \"solver\"), no set-logic, timeout per query as configured"
 }
